@@ -152,6 +152,17 @@ def run(case):
                                 pauses=case.get('pauses'), crash_paused=case.get('crash_paused'))
     try:
         proc = runner.run()
+        if runner.runaway is not None:
+            result.events = list(runner.world.events)
+            result.nontrivial = True
+            result.violate('runaway', 'tick_limit', f'the process does not come to rest: {runner.runaway}')
+            return result
+        if runner.resume_error is not None:
+            result.events = list(runner.world.events)
+            result.nontrivial = True
+            result.violate('resume_failed', type(runner.resume_error).__name__,
+                           f'resume() of the waiting process raised {runner.resume_error!r}')
+            return result
         if runner.load_error is not None:
             result.events = list(runner.world.events)
             result.nontrivial = True
